@@ -490,7 +490,10 @@ func (s *c12Sink) collect(base *int) string {
 		var a, b int
 		fmt.Sscanf(in[i], "in%d=", &a)
 		fmt.Sscanf(in[j], "in%d=", &b)
-		return a < b
+		if a != b {
+			return a < b
+		}
+		return in[i] < in[j] // callbacks of one operation run concurrently: canonical order
 	})
 	return strings.Join(append(out, in...), " ")
 }
